@@ -748,6 +748,17 @@ class CallMixin(object):
         j = fresh('mj')
         yield from self.map_over(lambda s_: self.call(f, [IntV(xs.t[j])], {}, s_, n), st.clone(), j, xs, st, False, n)
 
+    def bi_zip(self, args, kw, st, n):
+        """zip of two finite abstract lists: the pairs up to the shorter length (the lazy evaluation order of zip is not modelled: only valid
+        where the zipped things are side-effect free lists, or sidecar models of generators that say so)"""
+        if len(args) != 2:
+            raise Unsupported('zip of %d things' % len(args))
+        a, b = [self.deref_list(x, st) for x in args]
+        if not (isinstance(a, ListV) and isinstance(b, ListV)):
+            raise Unsupported('zip of %r, %r' % (a, b))
+        m = z3.If(a.n <= b.n, a.n, b.n)
+        yield st, ListV(m, lambda i: TupV([a.get(i), b.get(i)]), tag='zip')
+
     def bi_sorted(self, args, kw, st, n):
         hook = self.spec.hints.get('sorted')
         if hook is None:
@@ -776,6 +787,11 @@ class CallMixin(object):
     def bi_next(self, args, kw, st, n):
         line = getattr(n, 'lineno', None)
         for s, a in self.split(st, args[0]):
+            hook = self.spec.hints.get('next')
+            r = hook(self, a, args, s, n) if hook is not None else None
+            if r is not None:
+                yield from r                      # sidecar model of an iterator / generator object
+                continue
             if isinstance(a, RefV) and a.kind == 'iter':
                 seq = s.heap[(a.id, 'seq')]
                 pos = to_int(s.heap[(a.id, 'pos')])
